@@ -54,8 +54,13 @@ type sporkRec struct {
 
 func init() {
 	register("spork", func(c *Ctx) {
+		// the real GetEmbeddedMethod under all 8 regimes against the reviewed gate table (s_spork_gate.go)
+		sporkTableMonitor(c)
 		for i := 0; i < c.N; i++ {
 			sporkScenario(c, i)
+			// the family "the gate table": every spork-introduced method around every enforcement height, all six activation
+			// orders in rotation, send time and receive time (s_spork_gate.go)
+			sporkGateScenario(c, i)
 			if i%3 == 0 {
 				// the family "sporks defined in the genesis configuration" (s_spork_genesis.go), its four shapes in rotation
 				sporkGenesisScenario(c, i, i/3+int(c.Seed%4))
@@ -1134,25 +1139,14 @@ func sporkHaltChild() {
 	os.Exit(0)
 }
 
-// ownSpork: which spork introduces the method along the order accelerator → bridge → htlc (−1: in the origin table)
+// ownSpork: which spork introduces the method (0 accelerator, 1 bridge&liquidity, 2 htlc; -1: part of the protocol from
+// genesis; -2: no reviewed entry). Read off the REVIEWED gate table (s_spork_gate.go sporkGateTable = Model/Spork.lean
+// introducedBy), NOT off the method tables of the code under test (`rows`): a method that leaks into the table of an earlier
+// regime would otherwise simply count as ungated.
 func ownSpork(rows [][4]string, key string) int {
-	in := func(regime string) bool {
-		for _, r := range rows {
-			if r[0] == regime && r[1]+"."+r[2] == key {
-				return true
-			}
-		}
-		return false
+	own, ok := sporkGateTable[key]
+	if !ok {
+		return -2
 	}
-	switch {
-	case in("0"):
-		return -1
-	case in("1"):
-		return 0
-	case in("3"):
-		return 1
-	case in("7"):
-		return 2
-	}
-	return -1
+	return own - 1
 }
